@@ -2,7 +2,8 @@
    fields: op, string (code points)
      esc   s -> <hand-model escaped> TAB <table escaped> TAB <D<decoded>|E>   (decoded by JsonDec.lex_string, rest must be empty)
      toml  s -> escape_key_toml s  TAB  <0|1 plain by hand model> TAB <0|1 plain by translated table>
-     yaml  s -> <0|1 is_safe_yaml_plain (hand)> TAB <0|1 with translated word list> TAB <0|1 char class agrees> *)
+     yaml  s -> <0|1 is_safe_yaml_plain (hand)> TAB <0|1 with translated word list> TAB <0|1 char class agrees>
+                TAB <0|1 YAML 1.2 core schema resolves the plain scalar to a non-string> *)
 open Model
 open Wire
 
@@ -27,5 +28,6 @@ let handle (fields : ostring list) : ostring =
        | "yaml" ->
            b2s (is_safe_yaml_plain s) ^ "\t" ^ b2s (is_safe_yaml_plain_gen yaml_special_src s)
            ^ "\t" ^ b2s (List.for_all (fun c -> in_ranges c yaml_plain_ranges = yaml_plain_char c) s)
+           ^ "\t" ^ b2s (yaml12_core_nonstring s)
        | _ -> failwith ("jsonesc: bad op " ^ op))
   | _ -> failwith "jsonesc: bad case"
